@@ -25,6 +25,7 @@ from rpylib.process.levyprocess import (
     SimulationFixedTimes,
     SimulationWithJumpTimes,
     SimulationMaximumStep,
+    refine_up_to_maturity,
 )
 from rpylib.process.markovchain.markovchain import (
     MarkovChain,
@@ -372,8 +373,10 @@ class MCLevyCopulaSimulationMaximumStep(
         jump_times, jump_values = MCLevyCopulaSimulationWithJumpTimes.simulate_jumps(
             self
         )
-
-        if jump_times.size == 0:
-            return jump_times, jump_values
-        else:
-            return self.build_finer_grid(jump_times, jump_values)
+        return refine_up_to_maturity(
+            self.build_finer_grid,
+            self._maturity,
+            jump_times,
+            jump_values,
+            empty_shape=(self._dimension,),
+        )
